@@ -172,6 +172,10 @@ pub fn inject(p: &mut ProgramIr, t: &mut Tape, kind_idx: usize) -> Option<Fault>
         di += 1;
       }
       let variant = t.choose(5);
+      // the user module needs a member with a body (checked before anything is changed)
+      if !p.modules[ui].classes.iter().any(|c| !c.is_interface && c.members.iter().any(|m| m.body.is_some())) {
+        return None;
+      }
       let def_path = p.modules[di].path.clone();
       let tag = p.modules[di].classes.len();
       let hidden = format!("Hidden{tag}");
